@@ -47,6 +47,10 @@ CHECKS = {
             "Online trace-specification checker: the recording EventDelegate asserts, inside every callback and at every quiescent point of every scenario of every check, serialization (in-flight counter), the per-member join (update)* leave automaton, and equality of the replayed event set with the live table / Members() including metadata and address. This check drives it with churn fault scripts (short GossipToTheDeadTime so reaping happens) and same-instant multi-goroutine claim bursts, and requires every transition x cause cell (cause read from the callback's own stack) to have been observed.",
             "Trusts that memberlist invokes event delegates under its node lock (the in-callback comparison reads the table unlocked; if that assumption is broken the monitor reports it as overlap/mismatch), synctest quiescence.",
             "online event-automaton + replay-equals-Members monitor (in-callback and quiescent)", "DESIGN.md §3 C07"),
+    "C08": ("E2-rig (hijack) + E1-simnet (leave) + failpoint", "exploration",
+            "Runtime monitor: (A) hijack/name-reuse cross product on a real node with conflict-delegate recording; (B) Leave scenarios on real clusters with a transport tap that looks for the departure packet and captures the leaver's older alive messages for later re-delivery, dumps/events of every peer at settle and final points; (C) the same with an accusation injected through the verif failpoint inside Leave (between reading the incarnation and applying the departure) - the only place where an injected delay, not workload diversity, is needed to reach the interleaving.",
+            "Trusts the wire codec, the failpoint (runs harness code on Leave's goroutine without holding a memberlist lock), synctest.",
+            "before/after oracle on injected claims + leave-finality monitor on tap/dumps/events + failpoint-forced interleaving", "DESIGN.md §3 C08"),
 }
 
 NOT_YET = "check not built yet in this round (design in DESIGN.md §3); not claimed until its monitor runs clean on the unchanged tree"
@@ -82,7 +86,7 @@ def main():
             "add_only": True,
         },
         "engines": [
-            {"name": "E1-simnet", "path": "harness/simnet.go", "serves_properties": ["C02", "C03", "C04", "C05", "C07", "C17"], "kind_free_text": "real Memberlist instances on an in-memory transport inside a testing/synctest bubble (virtual time), with wire tap, fault scripts and fake peers"},
+            {"name": "E1-simnet", "path": "harness/simnet.go", "serves_properties": ["C02", "C03", "C04", "C05", "C07", "C08", "C17"], "kind_free_text": "real Memberlist instances on an in-memory transport inside a testing/synctest bubble (virtual time), with wire tap, fault scripts and fake peers"},
             {"name": "E2-model-lockstep", "path": "harness/", "serves_properties": ["C01", "C02", "C06", "C10", "C17", "C18"], "kind_free_text": "PRNG operation sequences against one object with an executable reference model evaluated in lock-step"},
         ],
         "checks": checks,
